@@ -584,8 +584,27 @@ func (s *c25Scenario) finish() {
 			return
 		}
 		if n >= 100000 && time.Since(t0) >= 3*time.Second {
+			// The release is the deferred part of the dispatcher's action
+			// goroutine. As long as such a goroutine is alive anywhere in the
+			// process the release may simply not have been scheduled yet
+			// (loaded machine): only when none is left is a wallet that is
+			// still marked busy certainly leaked.
+			if c25ActionGoroutines() > 0 {
+				if time.Since(t0) >= 90*time.Second {
+					s.inconclusive = fmt.Sprintf("%d wallet(s) still marked busy after 90 s while dispatcher action goroutines are still alive", left)
+					return
+				}
+				time.Sleep(2 * time.Millisecond)
+				continue
+			}
+			s.wd.actionsMutex.Lock()
+			left = len(s.wd.actions)
+			s.wd.actionsMutex.Unlock()
+			if left == 0 {
+				return
+			}
 			s.r.Violation("quiescence:actions-not-empty",
-				fmt.Sprintf("%d wallet(s) still marked busy at quiescence (every action has returned from execute)", left), s.desc, nil)
+				fmt.Sprintf("%d wallet(s) still marked busy at quiescence (every action has returned from execute and no dispatcher action goroutine is alive)", left), s.desc, nil)
 			if atomic.AddInt32(&c25SlowViolations, 1) >= 3 {
 				atomic.StoreInt32(&c25Stalled, 1)
 			}
@@ -880,4 +899,13 @@ func TestVerif_C25_DispatchRace(t *testing.T) {
 func c25Rand(r *verifkit.Run, i int) *rand.Rand {
 	h := sha256.Sum256([]byte(fmt.Sprintf("%d|C25|script|%d", r.Seed(), i)))
 	return rand.New(rand.NewSource(int64(binary.LittleEndian.Uint64(h[:8]))))
+}
+
+// c25ActionGoroutines counts the goroutines of the process that are inside
+// the function literal walletDispatcher.dispatch starts for an accepted
+// action (its deferred part performs the release).
+func c25ActionGoroutines() int {
+	buf := make([]byte, 4<<20)
+	n := runtime.Stack(buf, true)
+	return strings.Count(string(buf[:n]), "(*walletDispatcher).dispatch.func")
 }
